@@ -244,6 +244,29 @@ struct GuestSpec {
     extra_nonfunc: Option<(String, usize)>,
 }
 
+/// the low-level provider imports (name, signature) the real tool emits for a guest importing the whole API
+static EMITS: std::sync::OnceLock<Vec<(String, Sig)>> = std::sync::OnceLock::new();
+
+fn init_emits(api: &[ApiFn]) {
+    if EMITS.get().is_some() {
+        return;
+    }
+    let all: Vec<(String, String, Sig)> = api.iter().map(|a| (API_MODULE.to_string(), a.name.clone(), a.sig.clone())).collect();
+    let mut out: Vec<(String, Sig)> = Vec::new();
+    if let Ok(w) = wat::parse_str(&probe_module(&all)) {
+        if let Ok(o) = trampoline(&w) {
+            if let Ok((imps, _)) = imports_of(&o) {
+                for (m, n, k, sg) in imps {
+                    if k == "func" && m == API_MODULE && !api.iter().any(|a| a.name == n) && !out.iter().any(|(en, _)| *en == n) {
+                        out.push((n, sg));
+                    }
+                }
+            }
+        }
+    }
+    let _ = EMITS.set(out);
+}
+
 fn build_guest(api: &[ApiFn], g: &GuestSpec) -> String {
     let mut w = String::from("(module\n");
     if g.foreign_first {
@@ -273,7 +296,9 @@ fn build_guest(api: &[ApiFn], g: &GuestSpec) -> String {
         writeln!(w, "  (import \"{}\" \"{}\" {})", g.module_name, n, what).unwrap();
     }
     if let Some((m, n)) = &g.extra_import {
-        writeln!(w, "  (import \"{}\" \"{}\" (func $extra))", m, n).unwrap();
+        // a low-level provider name (a partially trampolined guest) comes with the signature the tool itself emits
+        let sig = EMITS.get().and_then(|e| e.iter().find(|(en, _)| en == n)).map(|(_, s)| sig_wat(s)).unwrap_or_default();
+        writeln!(w, "  (import \"{}\" \"{}\" (func $extra{}))", m, n, if m == &g.module_name { sig } else { String::new() }).unwrap();
     }
     for i in 0..g.memories {
         if i == 0 {
@@ -918,6 +943,7 @@ fn cmd_c04(seed: u64, n: u64, ops_path: &str, impl_path: &str) -> Result<()> {
     let mut known_f8 = 0u64;
     let mut total = 0u64;
     let mut hist: HashMap<String, u64> = HashMap::new();
+    init_emits(&api);
     // the glue family first (these lines are answered by the Lean interpreter too)
     let fam = family(&api);
     let mut modules: Vec<(Vec<u8>, Vec<usize>, bool, Option<usize>)> = Vec::new();
@@ -927,6 +953,8 @@ fn cmd_c04(seed: u64, n: u64, ops_path: &str, impl_path: &str) -> Result<()> {
     }
     // generated modules: any subset / order of API imports, foreign imports, own code
     let string_carrying = ["shopify_function_input_read_utf8_str", "shopify_function_input_get_obj_prop", "shopify_function_output_new_utf8_str", "shopify_function_intern_utf8_str", "shopify_function_log_new_utf8_str"];
+    let mut forced: Vec<(usize, usize)> = Vec::new();
+    let mut partial_n = 0usize;
     for mi in 0..(n / 12).max(4) {
         let mut idx: Vec<usize> = (0..api.len()).collect();
         for i in (1..idx.len()).rev() {
@@ -938,10 +966,24 @@ fn cmd_c04(seed: u64, n: u64, ops_path: &str, impl_path: &str) -> Result<()> {
             idx.retain(|k| !string_carrying.contains(&api[*k].name.as_str()));
         }
         let keep = rng.range(1, idx.len() as u64) as usize;
-        idx.truncate(keep);
+        if mi % 5 != 4 {
+            idx.truncate(keep);
+        }
         // every third generated module imports one of its API functions a second time (valid Wasm)
         let dup = if rng.below(3) == 0 { Some(idx[rng.below(idx.len() as u64) as usize]) } else { None };
         let mut g = GuestSpec { apis: idx.clone(), foreign_first: rng.below(2) == 0, foreign_between: rng.below(2) == 0, own_stuff: rng.below(2) == 0, memories: 1, module_name: API_MODULE.into(), own_state: true, foreign_memory: rng.below(3) == 0, bad_sig: None, extra_import: None, dup: dup.map(|k| (k, api[k].sig.clone())), nonfunc: None, extra_nonfunc: None };
+        if mi % 5 == 4 {
+            // a partially trampolined guest: a low-level provider import is already present
+            // (it imports the whole API, so whichever glue might take the present import for its own is there)
+            if let Some(e) = EMITS.get().filter(|e| !e.is_empty()) {
+                let mut stringy: Vec<&(String, Sig)> = e.iter().filter(|(n, _)| n.contains("utf8_str") || n.contains("alloc") || n.contains("obj_prop")).collect();
+                // the low-level twins of the string-carrying functions first (same signature as one another)
+                stringy.sort_by_key(|(n, _)| (!string_carrying.iter().any(|s| n.strip_prefix('_') == Some(*s)), n.clone()));
+                let full = string_carrying.iter().all(|s| idx.iter().any(|k| api[*k].name == *s));
+                let pick = if stringy.is_empty() || !full { &e[(mi as usize / 5) % e.len()] } else { partial_n += 1; stringy[(partial_n - 1) % stringy.len()] };
+                g.extra_import = Some((API_MODULE.into(), pick.0.clone()));
+            }
+        }
         if mi % 5 == 3 {
             // a guest that imports the provider's memory itself (to peek at it); its API imports still
             // need their trampolines
@@ -950,6 +992,17 @@ fn cmd_c04(seed: u64, n: u64, ops_path: &str, impl_path: &str) -> Result<()> {
             g.extra_nonfunc = Some(("memory".to_string(), 2));
         }
         let wasm = wat::parse_str(&build_guest(&api, &g))?;
+        if mi % 5 == 4 && g.extra_import.is_some() {
+            // every string-carrying function of a partially trampolined guest gets a scenario of its own
+            for name in string_carrying {
+                if let Some(k) = api.iter().position(|a| a.name == name) {
+                    if idx.contains(&k) {
+                        forced.push((modules.len(), k));
+                        *hist.entry(format!("partially-trampolined:{}+{}", g.extra_import.as_ref().map(|x| x.1.as_str()).unwrap_or(""), name)).or_insert(0) += 1;
+                    }
+                }
+            }
+        }
         modules.push((trampoline(&wasm)?, idx, false, dup));
     }
     // every string-carrying function (and two scalar ones) imported twice: the second occurrence has glue
@@ -962,19 +1015,24 @@ fn cmd_c04(seed: u64, n: u64, ops_path: &str, impl_path: &str) -> Result<()> {
         let wasm = wat::parse_str(&build_guest(&api, &g))?;
         modules.push((trampoline(&wasm)?, idx, false, Some(k)));
     }
-    for i in 0..n {
-        // family modules, then every module in turn, then at random
-        let mi = match i % 3 {
-            0 => (i / 3) as usize % fam.len(),
-            1 => (i / 3) as usize % modules.len(),
-            _ => rng.below(modules.len() as u64) as usize,
+    for i in 0..n + forced.len() as u64 {
+        // family modules, then every module in turn, then at random; then the forced (module, function) pairs
+        let is_forced = i >= n;
+        let mi = if is_forced {
+            forced[(i - n) as usize].0
+        } else {
+            match i % 3 {
+                0 => (i / 3) as usize % fam.len(),
+                1 => (i / 3) as usize % modules.len(),
+                _ => rng.below(modules.len() as u64) as usize,
+            }
         };
         let (wasm, apis, in_family, dup) = &modules[mi];
-        let mut k = apis[rng.below(apis.len() as u64) as usize];
+        let mut k = if is_forced { forced[(i - n) as usize].1 } else { apis[rng.below(apis.len() as u64) as usize] };
         let mut path = ["api", "w", "t"][rng.below(3) as usize];
         let mut export = format!("{}_{}", path, k);
         if let Some(dk) = dup {
-            if rng.below(2) == 0 {
+            if !is_forced && rng.below(2) == 0 {
                 // the second occurrence of a repeated import
                 k = *dk;
                 path = "dup";
@@ -1136,6 +1194,7 @@ fn cmd_c07(seed: u64, n: u64, ops_path: &str, impl_path: &str) -> Result<()> {
     let mut hist: HashMap<String, u64> = HashMap::new();
     let string_fns = ["shopify_function_input_read_utf8_str", "shopify_function_input_get_obj_prop", "shopify_function_output_new_utf8_str", "shopify_function_intern_utf8_str", "shopify_function_log_new_utf8_str"];
     let mut cases = 0u64;
+    init_emits(&api);
     let near = near_miss_names(&api, &provider_exports());
     // after the generated cases: every near-miss name once (as a function import next to a few API imports)
     for i in 0..n + near.len() as u64 {
@@ -1148,7 +1207,7 @@ fn cmd_c07(seed: u64, n: u64, ops_path: &str, impl_path: &str) -> Result<()> {
         let keep = rng.range(0, api.len() as u64) as usize;
         idx.truncate(keep);
         let mut g = GuestSpec { apis: idx.clone(), foreign_first: rng.below(2) == 0, foreign_between: rng.below(2) == 0, own_stuff: true, memories: 1, module_name: API_MODULE.into(), own_state: true, foreign_memory: false, bad_sig: None, extra_import: None, dup: None, nonfunc: None, extra_nonfunc: None };
-        let variant = if sweep { 4 } else { i % 15 };
+        let variant = if sweep { 4 } else { i % 16 };
         let vname = match variant {
             0 | 1 => "valid",
             2 => {
@@ -1222,6 +1281,15 @@ fn cmd_c07(seed: u64, n: u64, ops_path: &str, impl_path: &str) -> Result<()> {
             11 => {
                 g.nonfunc = Some(rng.below(api.len() as u64) as usize);
                 "non-function-api-name"
+            }
+            15 => {
+                // a partially trampolined guest: one of the low-level provider imports is already there (with the
+                // signature the tool emits), next to public names that still need their trampolines
+                if let Some(e) = EMITS.get().filter(|e| !e.is_empty()) {
+                    let (n, _) = &e[(i as usize / 16) % e.len()];
+                    g.extra_import = Some((API_MODULE.into(), n.clone()));
+                }
+                "partially-trampolined"
             }
             14 => {
                 // a guest that imports the provider's memory itself (allowed) next to public API functions:
@@ -1510,7 +1578,10 @@ fn cmd_abi(out: &str, candidates: &[String]) -> Result<()> {
             continue;
         }
         let a0 = &api[0];
-        if run(&[(mname.clone(), a0.name.clone(), a0.sig.clone())]).is_ok() {
+        let a1 = &api[1 % api.len()];
+        let alone = run(&[(mname.clone(), a0.name.clone(), a0.sig.clone())]).is_ok();
+        let behind = run(&[(API_MODULE.to_string(), a1.name.clone(), a1.sig.clone()), ("env".to_string(), "f".to_string(), Sig { params: vec![], results: vec![] }), (mname.clone(), a0.name.clone(), a0.sig.clone())]).is_ok();
+        if alone || behind {
             mod_accepted.push(mname);
         }
     }
